@@ -303,6 +303,16 @@ type subKey struct {
 // topicHistory runs one random subscribe/unsubscribe/retain history against a
 // map model, comparing the full observable state after every operation.
 func topicHistory(r *spec.Rand, idx int) {
+	// every fourth history runs with a server maximum QoS below 2 (topics.MaxQosAllowed, a legal
+	// configuration): the granted QoS is min(requested, maximum) and that is what the subscription holds
+	maxQ := byte(2)
+	if idx%4 == 3 {
+		maxQ = byte(idx / 4 % 2)
+		out.Count("c06.hist.lowered_max_qos", 1)
+	}
+	oldMax := topics.MaxQosAllowed
+	topics.MaxQosAllowed = maxQ
+	defer func() { topics.MaxQosAllowed = oldMax }()
 	p := topics.NewMemProvider()
 	withEmpty := idx%10 == 9 // a marked subset exercises empty levels (known finding classifier)
 	type ptrSub struct{ n int }
@@ -428,11 +438,11 @@ func topicHistory(r *spec.Rand, idx int) {
 				return
 			}
 			if ok {
-				if g != q {
-					fail("c06:granted", fmt.Sprintf("granted %d for %d", g, q))
+				if g != minQ(q, maxQ) {
+					fail("c06:granted", fmt.Sprintf("granted %d for requested %d with server maximum %d", g, q, maxQ))
 					return
 				}
-				model[subKey{s, f}] = q
+				model[subKey{s, f}] = g
 			}
 		case op < 6: // unsubscribe (held or not)
 			f, _ := pickFilter()
